@@ -185,7 +185,10 @@ def check_call(rt, key, con, fn, params, args, want_kind, desc):
         outcome = ('raise', e)
     vios = []
     after = args[1:] if names and names[0] in ('self', 'cls') else args
-    for b, a in zip(before, after):
+    pnames_ = names[1:] if names and names[0] in ('self', 'cls') else names
+    for b, a, pn_ in zip(before, after, list(pnames_) + [None] * len(after)):
+        if pn_ in (con.get('mutable') or []):
+            continue            # declared as modified by the function (e.g. the memo of __deepcopy__)
         if b is not None and not same(b, a):
             vios.append(('frame', f'argument mutated: before={safe_repr(b)} after={safe_repr(a)}'))
     rt.set_universe(list(args) + ([outcome[1]] if outcome[0] == 'return' else []))
